@@ -290,6 +290,55 @@ Proof.
     rewrite Nat.div2_succ_double. apply update_odd. assumption.
 Qed.
 
+(* value.to_literal() / the reference's literal of a value: the same well-typed literal (APPLY) *)
+Lemma data_of_pval_ok v : forall t, typed v t -> has_literal t = true -> has_coll t = false ->
+  exists d, data_of_pval v = Some d /\ data_of_value t (erase v) = Some d /\ data_has_type t d = true.
+Proof.
+  induction v as [z|z|z|z|s|s|s|s|b0| |x y IHx IHy|t0|x IHx|x t0 IHx|t0 x IHx|t0 l IHl|t0 l IHl|kt vt l IHl|ta tb body] using pval_ind';
+    intros t Ht Hl Hc; unfold typed in Ht; destruct t; simpl in Ht; try discriminate Ht;
+    simpl in Hl; try discriminate Hl; simpl in Hc; try discriminate Hc; simpl.
+  - eexists; repeat split.
+  - eexists; repeat split. exact Ht.
+  - eexists; repeat split. exact Ht.
+  - eexists; repeat split.
+  - eexists; repeat split.
+  - eexists; repeat split.
+  - eexists; repeat split.
+  - eexists; repeat split.
+  - apply andb_prop in Ht as [H1 H2]. apply andb_prop in Hl as [L1 L2]. apply orb_false_elim in Hc as [C1 C2].
+    destruct (IHx _ H1 L1 C1) as (d1 & E1 & V1 & T1). destruct (IHy _ H2 L2 C2) as (d2 & E2 & V2 & T2).
+    rewrite E1, E2, V1, V2. eexists; repeat split. simpl. rewrite T1, T2. reflexivity.
+  - eexists; repeat split.
+  - destruct (IHx _ Ht Hl Hc) as (d & E & V & T). rewrite E, V. simpl. eexists; repeat split. exact T.
+  - apply andb_prop in Ht as [H1 H2]. apply andb_prop in Hl as [L1 L2]. apply orb_false_elim in Hc as [C1 C2].
+    destruct (IHx _ H1 L1 C1) as (d & E & V & T). rewrite E, V. simpl. eexists; repeat split. exact T.
+  - apply andb_prop in Ht as [H1 H2]. apply andb_prop in Hl as [L1 L2]. apply orb_false_elim in Hc as [C1 C2].
+    destruct (IHx _ H2 L2 C2) as (d & E & V & T). rewrite E, V. simpl. eexists; repeat split. exact T.
+  - apply andb_prop in Ht as [H1 H2].
+    assert (G : exists ds,
+      (fix go (l0 : list pval) : option (list data) :=
+         match l0 with
+         | [] => Some []
+         | x :: r => match data_of_pval x with
+                     | Some d => match go r with Some ds => Some (d :: ds) | None => None end
+                     | None => None
+                     end
+         end) l = Some ds /\
+      (fix go (l0 : list value) : option (list data) :=
+         match l0 with
+         | [] => Some []
+         | x :: r => match data_of_value t x with
+                     | Some d => match go r with Some ds => Some (d :: ds) | None => None end
+                     | None => None
+                     end
+         end) (map erase l) = Some ds /\ forallb (data_has_type t) ds = true).
+    { clear H1. induction l as [|x r IHr]; [exists []; auto|].
+      simpl in H2. apply andb_prop in H2 as [Hx Hr]. inversion IHl as [|? ? Px Pr]; subst.
+      destruct (Px _ Hx Hl Hc) as (d & E & V & T). destruct (IHr Pr Hr) as (ds & Es & Vs & Ts).
+      simpl. rewrite E, V, Es, Vs. exists (d :: ds). repeat split. simpl. rewrite T, Ts. reflexivity. }
+    destruct G as (ds & Es & Vs & Ts). rewrite Es, Vs. simpl. eexists; repeat split. exact Ts.
+Qed.
+
 (* ------------------------------------------------------------------------------------------ *)
 (* instructions without sub-programs: the pytezos step agrees with the reference rule          *)
 (* ------------------------------------------------------------------------------------------ *)
@@ -396,11 +445,8 @@ Proof.
   - (* SWAP *) tc_cases Htc. injection Htc as <-. inv_f2. give_args. simpl.
     eexists; split; [reflexivity | split; [reflexivity | repeat constructor; assumption]].
   - (* PUSH *) tc_cases Htc. injection Htc as <-. give_args. simpl.
-    apply andb_prop in Heqb as [Hd Hn].
-    assert (Hn' : no_coll t = true).
-    { clear - Hn. simpl in Hn. apply negb_true_iff in Hn. induction t; simpl in *; try reflexivity; try discriminate;
-        try (apply orb_false_elim in Hn as [H1 H2]; rewrite IHt1, IHt2 by assumption; reflexivity); auto. }
-    destruct (py_of_data_typed d t Hd Hn') as (v & E & T & R). rewrite E.
+    apply andb_prop in Heqb as [Hd Hn]. simpl in Hn. apply negb_true_iff in Hn.
+    destruct (py_of_data_typed d t Hd Hn) as (v & E & T & R). rewrite E.
     eexists; split; [reflexivity | split; [simpl; rewrite R; reflexivity | constructor; assumption]].
   - (* PAIR *) tc_cases Htc. injection Htc as <-. inv_f2. give_args. simpl. finish.
   - (* UNPAIR *) tc_cases Htc. injection Htc as <-. inv_f2. inv_ty. give_args. simpl.
@@ -583,8 +629,24 @@ Proof.
       (rewrite Z2Nat.inj_add by assumption); (rewrite Nat.add_comm, Nat.add_sub);
       (eexists; split; [reflexivity | split; [reflexivity | constructor; [reflexivity | assumption]]]).
   - (* FAILWITH: not typed by tc_simple *) discriminate Htc.
-  - (* LAMBDA *) discriminate Htc.
-  - (* APPLY *) discriminate Htc.
+  - (* LAMBDA: typed by typecheck_gen itself, see sim_step *) discriminate Htc.
+  - (* APPLY *)
+    destruct s as [|ta [|[] r]]; try discriminate Htc. destruct a; try discriminate Htc.
+    match type of Htc with (if ?c then _ else _) = _ => destruct c eqn:Q; [|discriminate Htc] end.
+    injection Htc as <-. apply andb_prop in Q as [Q Q3]. apply andb_prop in Q as [Q1 Q2].
+    apply ty_eqb_eq in Q1. subst a1. simpl in Q3. apply negb_true_iff in Q3.
+    inversion Hs as [|lft ? rest0 ? Hl Hr0]; subst. inversion Hr0 as [|lamv ? rest ? Hlam Hr]; subst.
+    apply typed_lambda_inv in Hlam as (body & -> & Hbody).
+    destruct (data_of_pval_ok lft ta Hl Q2 Q3) as (d & E1 & E2 & E3).
+    exists [lft; PLam (TPair ta a2) b body], rest. split; [reflexivity | split; [reflexivity|]].
+    cbn [ref_simple map erase]. rewrite E2, (typed_rt_type lft ta Hl), ty_eqb_refl, E1.
+    eexists; split; [reflexivity | split; [reflexivity | constructor; [|assumption]]].
+    (* the closure { PUSH ta d ; PAIR ; body } has type lambda a2 b *)
+    unfold typed. cbn [pv_typedb]. rewrite !ty_eqb_refl. simpl andb.
+    unfold lam_body_ok in *. unfold typecheck_nr in *. simpl. rewrite E3, Q3. simpl.
+    remember (typecheck_gen true body [TPair ta a2]) as tb eqn:Eb. clear Eb.
+    destruct tb as [[s1|]|]; [|reflexivity | discriminate Hbody].
+    destruct s1 as [|b' [|]]; try discriminate Hbody. simpl. exact Hbody.
 Qed.
 
 (* ------------------------------------------------------------------------------------------ *)
@@ -646,15 +708,15 @@ Proof.
   apply typed_bytes_inv in Hx as [s ->]. destruct IH as (t & E1 & E2). simpl. rewrite E1, E2. simpl. eauto.
 Qed.
 
-Lemma py_simple_none_tc i s : py_simple e i = None -> is_shuffle i = false -> i <> I_CONCAT -> tc_simple true i s = None.
-Proof. destruct i; simpl; intros; try discriminate; try reflexivity. congruence. Qed.
+Lemma py_simple_none_tc i s : py_simple e i = None -> is_shuffle i = false -> i <> I_CONCAT -> i <> I_EXEC -> tc_simple true i s = None.
+Proof. destruct i; simpl; intros; try discriminate; try reflexivity; congruence. Qed.
 
 Lemma sim_simple i s R pre vis :
-  option_map Typed (tc_simple true i s) = Some R -> styped vis s -> is_shuffle i = false -> i <> I_CONCAT ->
+  option_map Typed (tc_simple true i s) = Some R -> styped vis s -> is_shuffle i = false -> i <> I_CONCAT -> i <> I_EXEC ->
   sim_rel R pre (ref_simple e i (map erase vis))
           (match py_simple e i with Some (k, fn) => py_exec_simple k fn (mkst pre vis) | None => PError end).
 Proof.
-  intros Htc Hs Hsh Hc. destruct (tc_simple true i s) as [s1|] eqn:E; [|discriminate]. injection Htc as <-.
+  intros Htc Hs Hsh Hc Hx. destruct (tc_simple true i s) as [s1|] eqn:E; [|discriminate]. injection Htc as <-.
   destruct (py_simple e i) as [[k fn]|] eqn:Hpy; [|rewrite py_simple_none_tc in E by assumption; discriminate].
   destruct (simple_agree i k fn s s1 vis Hpy E Hs) as (args & rest & -> & L & H).
   unfold py_exec_simple. rewrite (pop_mkst pre args rest k L).
@@ -755,7 +817,7 @@ Section Sim.
     destruct c; cbn [typecheck_gen] in Htc; cbn [ref_eval];
       try (apply (sim_shuffle f _ s); [reflexivity | assumption | assumption]);
       cbn [py_eval];
-      try (apply (sim_simple _ s); [assumption | assumption | reflexivity | discriminate]).
+      try (apply (sim_simple _ s); [assumption | assumption | reflexivity | discriminate | discriminate]).
     - (* NOOP *) injection Htc as <-. simpl. eauto.
     - (* SEQ *)
       destruct (typecheck_gen true c1 s) as [[s1|]|] eqn:E1; try discriminate.
@@ -895,7 +957,40 @@ Section Sim.
       destruct s as [|t r]; [discriminate|]. injection Htc as <-. inversion Hs as [|v ? rest ? Hv Hr]; subst.
       simpl. unfold py_exec_simple. change (v :: rest) with ([v] ++ rest). rewrite (pop_mkst pre [v] rest 1 eq_refl).
       simpl. eauto.
-    - (* EXEC: outside the fragment (LAMBDA is already discharged: typecheck_nr rejects it) *) discriminate Htc.
+    - (* LAMBDA *)
+      assert (Hb : lam_body_ok a b c = true /\ R = Typed (TLambda a b :: s)).
+      { unfold lam_body_ok, typecheck_nr. destruct (typecheck_gen true c [a]) as [[[|b' [|]]|]|]; try discriminate Htc.
+        - destruct (ty_eqb b b'); [|discriminate Htc]. injection Htc as <-. auto.
+        - injection Htc as <-. auto. }
+      destruct Hb as [Hb ->]. simpl. unfold py_exec_simple.
+      change (mkst pre vis) with (mkst pre ([] ++ vis)). rewrite (pop_mkst pre [] vis 0 eq_refl). simpl. rewrite push_mkst.
+      exists (PLam a b c :: vis). repeat split; auto. constructor; [|assumption].
+      unfold typed. simpl. rewrite !ty_eqb_refl, Hb. reflexivity.
+    - (* EXEC *)
+      unfold option_map in Htc. destruct (tc_simple true I_EXEC s) as [s1|] eqn:E; [|discriminate]. injection Htc as <-.
+      simpl in E. destruct s as [|a [|[] r]]; try discriminate E.
+      destruct (ty_eqb a a0) eqn:Q; [|discriminate E]. apply ty_eqb_eq in Q. subst a0. injection E as <-.
+      inversion Hs as [|param ? rest0 ? Hp Hr0]; subst. inversion Hr0 as [|lamv ? rest ? Hlam Hr]; subst.
+      apply typed_lambda_inv in Hlam as (body & -> & Hbody).
+      cbn [map erase].
+      change (param :: PLam a b body :: rest) with ([param; PLam a b body] ++ rest).
+      rewrite (pop_mkst pre [param; PLam a b body] rest 2 eq_refl).
+      rewrite (typed_rt_type param a Hp), ty_eqb_refl.
+      assert (Hs1 : styped [param] [a]) by (constructor; [assumption | constructor]).
+      unfold lam_body_ok, typecheck_nr in Hbody.
+      destruct (typecheck_gen true body [a]) as [Rb|] eqn:Eb; [|discriminate Hbody].
+      pose proof (IH body [a] Rb [] [param] Eb Hs1) as H.
+      change (mkstack [param] 0) with (mkst [] [param]). change (map erase [param]) with [erase param] in H.
+      destruct (ref_eval e f body [erase param]) as [r0|v| | |]; simpl in H.
+      + destruct H as (vis' & -> & <- & T). destruct Rb as [[|b' [|]]|]; try discriminate Hbody; try contradiction.
+        apply ty_eqb_eq in Hbody. subst b'.
+        inversion T as [|res ? vs ? Hres Tr]; subst. inversion Tr; subst.
+        rewrite pop1_mkst. rewrite (typed_rt_type res b Hres), ty_eqb_refl. simpl. rewrite push_mkst.
+        exists (res :: rest). repeat split; auto. constructor; assumption.
+      + destruct H as (pv & -> & <-). simpl. eauto.
+      + rewrite H. reflexivity.
+      + rewrite H. reflexivity.
+      + contradiction.
   Qed.
 End Sim.
 
@@ -1074,6 +1169,8 @@ Proof.
   destruct i; simpl; try (intros H; exact H); try discriminate.
   - (* PUSH *) destruct (data_has_type t d); simpl; [|discriminate]. destruct (has_coll t); simpl; [discriminate | auto].
   - (* SIZE *) destruct s as [|[] r]; auto; discriminate.
+  - (* APPLY *) destruct s as [|ta [|[] r]]; auto. destruct a; auto. destruct (ty_eqb ta a1); simpl; auto.
+    destruct (has_literal ta); simpl; auto. destruct (has_coll ta); simpl; [discriminate | auto].
 Qed.
 
 Lemma tc_nr_sub c : forall s R, typecheck_gen true c s = Some R -> typecheck_gen false c s = Some R.
@@ -1111,6 +1208,7 @@ Proof.
   - destruct s as [|[] r]; try discriminate.
     destruct (typecheck_gen true c (a :: r)) as [[[|b r1]|]|] eqn:E1; try discriminate. rewrite (IHc _ _ E1).
     destruct (sty_eqb r1 r); simpl in *; [|discriminate]. destruct (ty_eqb a b); [assumption | discriminate].
+  - (* LAMBDA *) destruct (typecheck_gen true c [a]) as [x|] eqn:E1; [|discriminate]. rewrite (IHc _ _ E1). assumption.
 Qed.
 
 (* (a) stated on an arbitrary stack whose counter does not exceed its length *)
